@@ -34,6 +34,9 @@ func init() {
 			{"index/metric_index_database.go", "metricIndexDatabase", "PrepareFlush", "indexPrepareCalls"},
 			{"index/metric_index_database.go", "metricIndexDatabase", "Flush", "indexFlushCalls"},
 			{"pkg/queue/consumer_group.go", "consumerGroup", "Ack", "groupAckCalls"},
+			{"replica/partition.go", "partition", "IsExpire", "isExpireCalls"},
+			{"replica/wal.go", "writeAheadLog", "destroy", "walDestroyCalls"},
+			{"replica/wal.go", "writeAheadLog", "recovery", "walRecoveryCalls"},
 		}
 		files := map[string]*ast.File{}
 		get := func(rel string) (*ast.File, error) {
@@ -64,6 +67,21 @@ func init() {
 			fmt.Fprintf(&sb, "def groupAckGuard : String := %q\n\n", c)
 		} else {
 			return "", fmt.Errorf("consumerGroup.Ack: guard not found")
+		}
+		// consumerGroup.IsEmpty: the expression it returns (the WAL garbage collector's predicate)
+		if e := c07LastReturnExpr(FindFunc(cgf, "consumerGroup", "IsEmpty")); e != "" {
+			fmt.Fprintf(&sb, "def groupIsEmptyExpr : String := %q\n\n", e)
+		} else {
+			return "", fmt.Errorf("consumerGroup.IsEmpty: return expression not found")
+		}
+		atomic, err := C07AtomicAcquire(repo)
+		if err != nil {
+			return "", err
+		}
+		if atomic {
+			sb.WriteString("/-- WriteRows registers as writer of the memory database inside the family-mutex section that looks it up -/\ndef atomicAcquire : Bool := true\n\n")
+		} else {
+			sb.WriteString("/-- WriteRows: GetOrCreateMemoryDatabase (family mutex) and then, unprotected, db.AcquireWrite() -/\ndef atomicAcquire : Bool := false\n\n")
 		}
 		swap, conds, err := C07SwapOnEmpty(repo)
 		if err != nil {
@@ -120,6 +138,72 @@ func C07SwapOnEmpty(repo string) (swap bool, conds []string, err error) {
 		return true, conds, nil
 	}
 	return false, conds, fmt.Errorf("the four PrepareFlush copies disagree: %v", conds)
+}
+
+// C07AtomicAcquire reads the shape of dataFamily.WriteRows: false = it calls
+// f.GetOrCreateMemoryDatabase and afterwards db.AcquireWrite itself (two steps, the second outside
+// the family mutex); true = WriteRows does not call AcquireWrite directly and some dataFamily
+// method acquires the writer between mutex.Lock and its (deferred) Unlock. Anything else is an error.
+func C07AtomicAcquire(repo string) (bool, error) {
+	_, f, err := ParseFile(repo, "tsdb/data_family.go")
+	if err != nil {
+		return false, err
+	}
+	wr := callSeqExec(FindFunc(f, "dataFamily", "WriteRows"))
+	if len(wr) == 0 {
+		return false, fmt.Errorf("dataFamily.WriteRows not found")
+	}
+	idx := func(l []string, suffix string) int {
+		for i, s := range l {
+			if strings.HasSuffix(s, suffix) && !strings.HasPrefix(s, "defer:") {
+				return i
+			}
+		}
+		return -1
+	}
+	g, a := idx(wr, "GetOrCreateMemoryDatabase"), idx(wr, ".AcquireWrite")
+	if g >= 0 && a > g {
+		return false, nil
+	}
+	if a < 0 {
+		for _, d := range f.Decls {
+			fd, ok := d.(*ast.FuncDecl)
+			if !ok || fd.Recv == nil || fd.Name.Name == "WriteRows" {
+				continue
+			}
+			cs := callSeqExec(fd)
+			l, aw := idx(cs, "mutex.Lock"), idx(cs, ".AcquireWrite")
+			if l >= 0 && aw > l {
+				// the unlock must come after the acquire (deferred, or a later call)
+				ok := false
+				for i, s := range cs {
+					if s == "defer:mutex.Unlock" || (s == "mutex.Unlock" && i > aw) {
+						ok = true
+					}
+				}
+				if ok && idx(wr, "."+fd.Name.Name) >= 0 {
+					return true, nil
+				}
+			}
+		}
+	}
+	return false, fmt.Errorf("dataFamily.WriteRows: unknown shape of memory database lookup / AcquireWrite: %v", wr)
+}
+
+func c07LastReturnExpr(fd *ast.FuncDecl) string {
+	if fd == nil || fd.Body == nil {
+		return ""
+	}
+	out := ""
+	ast.Inspect(fd.Body, func(n ast.Node) bool {
+		if r, ok := n.(*ast.ReturnStmt); ok && len(r.Results) == 1 {
+			var buf bytes.Buffer
+			_ = printer.Fprint(&buf, token.NewFileSet(), r.Results[0])
+			out = buf.String()
+		}
+		return true
+	})
+	return out
 }
 
 // callSeqExec is CallSeq in EXECUTION order for straight-line readers: calls in source order, the
